@@ -31,16 +31,17 @@ def base(econ=1, enduse=1, plant=1, res=4, shape=(5, 3, 2), redrill=False) -> Or
     d['Number of Segments'] = '1'
     d['Gradient 1'] = '55'
     d['Maximum Temperature'] = '400'
-    d['Number of Production Wells'] = '2'
+    d['Number of Production Wells'] = '3'      # twins are deliberately different (production/injection, surface/ambient, PI/II ...):
+    # a slip that takes one for the other must change something observable
     d['Number of Injection Wells'] = '2'
-    d['Production Well Diameter'] = '7'
+    d['Production Well Diameter'] = '8'
     d['Injection Well Diameter'] = '7'
     d['Ramey Production Wellbore Model'] = '1'
     d['Injection Wellbore Temperature Gain'] = '0'
     d['Production Flow Rate per Well'] = '55'
     d['Water Loss Fraction'] = '0.02'
     d['Productivity Index'] = '5'
-    d['Injectivity Index'] = '5'
+    d['Injectivity Index'] = '6'
     d['Injection Temperature'] = '50'
     d['Reservoir Heat Capacity'] = '1000'
     d['Reservoir Density'] = '2700'
@@ -67,11 +68,11 @@ def base(econ=1, enduse=1, plant=1, res=4, shape=(5, 3, 2), redrill=False) -> Or
     d['Maximum Drawdown'] = '0.08' if redrill else '1'
     d['End-Use Option'] = str(enduse)
     d['Power Plant Type'] = str(plant)
-    d['Circulation Pump Efficiency'] = '0.8'
-    d['Utilization Factor'] = '0.9'
-    d['End-Use Efficiency Factor'] = '0.85'
-    d['Surface Temperature'] = '20'
-    d['Ambient Temperature'] = '20'
+    d['Circulation Pump Efficiency'] = '0.78'
+    d['Utilization Factor'] = '0.88'
+    d['End-Use Efficiency Factor'] = '0.83'
+    d['Surface Temperature'] = '18'
+    d['Ambient Temperature'] = '21'
     if enduse in (41, 42):
         d['CHP Bottoming Entering Temperature'] = '140'
     if enduse in (51, 52):
@@ -117,7 +118,7 @@ def base(econ=1, enduse=1, plant=1, res=4, shape=(5, 3, 2), redrill=False) -> Or
     d['Ending Heat Sale Price'] = '0.05'
     d['Heat Escalation Start Year'] = '1'
     d['Heat Escalation Rate Per Year'] = '0.005'
-    d['Starting Cooling Sale Price'] = '0.06'
+    d['Starting Cooling Sale Price'] = '0.065'
     d['Ending Cooling Sale Price'] = '0.07'
     d['Cooling Escalation Start Year'] = '0'
     d['Cooling Escalation Rate Per Year'] = '0.004'
